@@ -183,6 +183,24 @@ def run(ctx, rep):
         built = [s for bi in RN.reachable() for s in RN.blocks[bi]['stmts']
                  if s['k'] == 'assign' and s['rv']['k'] == 'agg' and s['rv'].get('adt') == DATA]
         ok = bool(clones) and written <= {'name'} and not built and any(('callsite', c) in d.of_local(0) for c in clones)
+        if not ok and clones and len(built) == 1 and written <= {'name'}:
+            # struct-update form `Self { name: new_name, ..self.clone() }`: every other field is taken, under its own
+            # name, from the clone (or from *self)
+            clone_locals = {RN.blocks[c]['term']['dest']['l'] for c in clones}
+            rv = built[0]['rv']
+            good = True
+            for fname, o in zip(rv.get('fields') or [], rv['ops']):
+                if fname == 'name':
+                    good = good and ('param', 2) in d.of_operand(o)
+                    continue
+                p = op_place(o)
+                names = [e.get('n') for e in p['p'] if 'f' in e] if p is not None else []
+                root_ok = p is not None and (p['l'] in clone_locals or p['l'] == 1 or
+                                             any(('local', c) in d.of_local(p['l']) for c in clone_locals))
+                good = good and root_ok and names[-1:] == [fname]
+            ok = good and bool(rv.get('fields'))
+            if ok:
+                built = []
         rep.oblige('R18.4', RN.name, ok=ok, nontrivial=True,
                    sample={'fn': RN.name, 'fields_assigned': sorted(written), 'rebuilt_field_by_field': bool(built)})
         if not ok:
